@@ -310,6 +310,12 @@ where
     let mut shift = -jac_inv * func_eval;
     guess += &shift;
 
+    // Already converged (e.g. the start is a root): the Broyden update below would divide by
+    // the squared length of a zero shift.
+    if shift.norm().abs() <= tol {
+        return Ok(guess);
+    }
+
     while n < n_max {
         let func_eval_last = func_eval;
         func_eval = func(guess.as_slice());
